@@ -180,7 +180,7 @@ Proof.
   assert (FJ : forall j, (j < L)%nat -> Forall (fun a => (j < length a)%nat) idxs).
   { intros j Hj. eapply Forall_impl; [|exact FL]. cbn. intros; lia. }
   assert (CM : MonoN ci).
-  { intros i j Hij. rewrite !CN. apply colsum_mono; auto. apply FJ. lia. }
+  { intros i j Hij. rewrite !CN. apply colsum_mono; [exact FM|apply FJ; lia|lia]. }
   assert (C0 : nth 0 ci 0 = 0).
   { rewrite CN. clear -HF. induction idxs as [|a t IH]; [reflexivity|]. inversion HF as [|? ? (_ & _ & H0) HF']; subst.
     cbn [colsum fold_right]. fold (colsum t 0). rewrite IH by assumption. lia. }
@@ -194,10 +194,660 @@ Proof.
     assert (Hlt : (last p O < L)%nat).
     { rewrite Forall_forall in PF. rewrite <- CL. apply PF. destruct p; [contradiction|]. apply (@exists_last _ (n :: p)) in Pne.
       destruct Pne as (q & z & Eq). rewrite Eq. rewrite last_last. apply in_or_app. right. left. reflexivity. }
-    rewrite last_nth, CL, !CN in PLast.
-    pose proof (colsum_eq_each idxs (last p O) (L - 1) FM (FJ _ ltac:(lia)) ltac:(lia) PLast) as HE.
+    rewrite (last_nth ci 0), CL, !CN in PLast.
+    pose proof (colsum_eq_each idxs (last p O) (L - 1) FM (FJ (L - 1)%nat ltac:(lia)) ltac:(lia) PLast) as HE.
     rewrite Forall_forall in *. intros a Ha r Hr. specialize (HE a Ha).
     destruct (HF a Ha) as (La & Ma & _).
     assert (nth (last p O) a 0 <= nth r a 0) by (apply Ma; lia).
     assert (nth r a 0 <= nth (L - 1) a 0) by (apply Ma; lia). lia.
+Qed.
+
+(* ================================================================== B. group-by *)
+Section GroupBy.
+Context {V : Type}.
+Notation recd := (key * V)%type.
+Notation grp := (key * list V)%type.
+
+Definition gkeys (g : list grp) : list key := map fst g.
+Definition GSorted (g : list grp) : Prop := StronglySorted klt (gkeys g).
+(** all values stored under key k in a grouped table *)
+Fixpoint glook (g : list grp) (k : key) : list V :=
+  match g with
+  | [] => []
+  | (k', vs) :: t => (if keqb k' k then vs else []) ++ glook t k
+  end.
+
+Lemma keqb_eq a b : keqb a b = true <-> a = b.
+Proof. unfold keqb. destruct a, b; cbn [fst snd]. split; [intros H; f_equal; lia|intros H; inversion H; lia]. Qed.
+Lemma keqb_refl a : keqb a a = true. Proof. now apply keqb_eq. Qed.
+Lemma keqb_neq a b : keqb a b = false <-> a <> b.
+Proof. rewrite <- keqb_eq. destruct (keqb a b); split; congruence. Qed.
+
+Lemma vals_nil k : @vals V [] k = []. Proof. reflexivity. Qed.
+Lemma vals_cons (p : recd) l k : vals (p :: l) k = (if keqb (fst p) k then [snd p] else []) ++ vals l k.
+Proof. unfold vals. cbn [filter]. destruct (keqb (fst p) k); reflexivity. Qed.
+Lemma vals_app (l1 l2 : list recd) k : vals (l1 ++ l2) k = vals l1 k ++ vals l2 k.
+Proof. unfold vals. now rewrite filter_app, map_app. Qed.
+Lemma vals_notin (l : list recd) k : ~ In k (map fst l) -> vals l k = [].
+Proof.
+  induction l as [|p l IH]; intros H; [reflexivity|]. rewrite vals_cons, IH.
+  - destruct (keqb (fst p) k) eqn:E; [|reflexivity]. apply keqb_eq in E. exfalso. apply H. left. exact E.
+  - intro X. apply H. right. exact X.
+Qed.
+Lemma vals_in (l : list recd) k : In k (map fst l) -> vals l k <> [].
+Proof.
+  induction l as [|p l IH]; intros H; [contradiction|]. rewrite vals_cons.
+  destruct (keqb (fst p) k) eqn:E; [discriminate|]. cbn [app]. apply IH.
+  destruct H as [H|H]; [|exact H]. apply keqb_neq in E. contradiction.
+Qed.
+(** filtering by a predicate on the key keeps or drops all values of a key *)
+Lemma vals_filter (P : key -> bool) (l : list recd) k :
+  vals (filter (fun p => P (fst p)) l) k = if P k then vals l k else [].
+Proof.
+  induction l as [|p l IH]; cbn [filter]; [destruct (P k); reflexivity|].
+  rewrite vals_cons. destruct (P (fst p)) eqn:Ep.
+  - rewrite vals_cons, IH. destruct (keqb (fst p) k) eqn:E.
+    + apply keqb_eq in E. subst k. rewrite Ep. reflexivity.
+    + destruct (P k); reflexivity.
+  - rewrite IH. destruct (keqb (fst p) k) eqn:E; [|reflexivity].
+    apply keqb_eq in E. subst k. rewrite Ep. reflexivity.
+Qed.
+Lemma keys_filter (P : key -> bool) (l : list recd) k :
+  In k (map fst (filter (fun p => P (fst p)) l)) <-> In k (map fst l) /\ P k = true.
+Proof.
+  rewrite !in_map_iff. split.
+  - intros (p & E & Hp). apply filter_In in Hp. destruct Hp as (Hp & HP). subst k. split; [exists p; auto|exact HP].
+  - intros ((p & E & Hp) & HP). subst k. exists p. split; [reflexivity|]. apply filter_In. auto.
+Qed.
+
+Lemma glook_notin g k : ~ In k (gkeys g) -> glook g k = [].
+Proof.
+  induction g as [|[k' vs] t IH]; intros H; [reflexivity|]. cbn [glook gkeys map fst In] in *.
+  destruct (keqb k' k) eqn:E. { apply keqb_eq in E. exfalso. apply H. left. exact E. }
+  cbn [app]. apply IH. intro X. apply H. right. exact X.
+Qed.
+Lemma glook_app g1 g2 k : glook (g1 ++ g2) k = glook g1 k ++ glook g2 k.
+Proof. induction g1 as [|[k' vs] t IH]; cbn [app glook]; [reflexivity|]. now rewrite IH, app_assoc. Qed.
+
+Lemma gkeys_gins k v g x : In x (gkeys (gins k v g)) <-> x = k \/ In x (gkeys g).
+Proof.
+  induction g as [|[k0 vs] t IH]; cbn [gins gkeys map In fst]; [intuition|].
+  destruct (kcmp k k0) eqn:E; cbn [gkeys map In fst].
+  - apply kcmp_eq in E; subst. intuition.
+  - intuition.
+  - fold (gkeys (gins k v t)). rewrite IH. fold (gkeys t). intuition.
+Qed.
+Lemma gsorted_gins k v g : GSorted g -> GSorted (gins k v g).
+Proof.
+  unfold GSorted. induction g as [|[k0 vs] t IH]; cbn [gins gkeys map fst]; intro H.
+  - constructor; constructor.
+  - inversion H as [|? ? Ht Hall]; subst. destruct (kcmp k k0) eqn:E; cbn [gkeys map fst].
+    + constructor; assumption.
+    + apply kcmp_lt in E. constructor; [exact H|]. constructor; [exact E|].
+      eapply Forall_impl; [|exact Hall]. intros a Ha. eapply klt_trans; eauto.
+    + apply kcmp_gt in E. constructor; [apply IH; exact Ht|].
+      apply Forall_forall. intros x Hx. apply (gkeys_gins k v t x) in Hx. destruct Hx as [->|Hx]; [exact E|].
+      rewrite Forall_forall in Hall. apply Hall; exact Hx.
+Qed.
+Lemma gsorted_head_notin k0 vs t : GSorted ((k0, vs) :: t) -> ~ In k0 (gkeys t).
+Proof.
+  intros H X. inversion H as [|? ? _ Hall]; subst. rewrite Forall_forall in Hall.
+  apply (klt_irrefl k0). apply Hall. exact X.
+Qed.
+Lemma glook_gins k v g q : GSorted g ->
+  glook (gins k v g) q = glook g q ++ (if keqb k q then [v] else []).
+Proof.
+  induction g as [|[k0 vs] t IH]; intros HS; cbn [gins glook].
+  - now rewrite app_nil_r.
+  - pose proof (gsorted_head_notin _ _ _ HS) as Hn.
+    inversion HS as [|? ? HSt Hall]; subst. fold (gkeys t) in *.
+    destruct (kcmp k k0) eqn:E; cbn [glook].
+    + apply kcmp_eq in E; subst k0. destruct (keqb k q) eqn:Eq.
+      * apply keqb_eq in Eq; subst q. rewrite (glook_notin t k Hn). now rewrite !app_nil_r.
+      * now rewrite !app_nil_r.
+    + apply kcmp_lt in E. destruct (keqb k q) eqn:Eq; [|now rewrite app_nil_r].
+      apply keqb_eq in Eq; subst q.
+      assert (Hk0 : keqb k0 k = false) by (apply keqb_neq; intros ->; now apply (klt_irrefl k)).
+      rewrite Hk0. cbn [app]. rewrite (glook_notin t k); [reflexivity|].
+      intro X. rewrite Forall_forall in Hall. apply (klt_irrefl k). eapply klt_trans; [exact E|apply Hall; exact X].
+    + rewrite (IH HSt). now rewrite app_assoc.
+Qed.
+
+(** g is the sorted grouping of src: strictly sorted keys, same key set, same values per key in order *)
+Definition GCanon (src : list recd) (g : list grp) : Prop :=
+  GSorted g /\ (forall k, In k (gkeys g) <-> In k (map fst src)) /\ (forall k, glook g k = vals src k).
+
+Lemma fold_gins_facts (l : list recd) : forall acc, GSorted acc ->
+  let r := fold_left (fun acc p => gins (fst p) (snd p) acc) l acc in
+  GSorted r /\ (forall k, In k (gkeys r) <-> In k (gkeys acc) \/ In k (map fst l))
+  /\ (forall k, glook r k = glook acc k ++ vals l k).
+Proof.
+  induction l as [|[k0 v0] t IH]; intros acc HS; cbn [fold_left].
+  - split; [exact HS|]. split; [intros k; cbn; intuition|]. intros k. now rewrite vals_nil, app_nil_r.
+  - specialize (IH (gins k0 v0 acc) (gsorted_gins k0 v0 acc HS)). cbn zeta in IH.
+    destruct IH as (S' & K' & L'). cbn [fst snd]. split; [exact S'|]. split.
+    + intros k. rewrite K', gkeys_gins. cbn [map In fst]. intuition.
+    + intros k. rewrite L', (glook_gins _ _ _ _ HS), vals_cons. cbn [fst snd]. now rewrite app_assoc.
+Qed.
+Theorem group_canon (l : list recd) : GCanon l (group l).
+Proof.
+  unfold group. destruct (fold_gins_facts l [] ltac:(constructor)) as (S' & K' & L').
+  split; [exact S'|]. split.
+  - intros k. rewrite K'. cbn. intuition.
+  - intros k. rewrite L'. reflexivity.
+Qed.
+
+(** two sorted groupings with the same keys whose value lists are related key-wise are related entry-wise *)
+Lemma gsorted_rel (R : list V -> list V -> Prop) g1 : forall g2, GSorted g1 -> GSorted g2 ->
+  (forall k, In k (gkeys g1) <-> In k (gkeys g2)) ->
+  (forall k, In k (gkeys g1) -> R (glook g1 k) (glook g2 k)) ->
+  Forall2 (fun e1 e2 => fst e1 = fst e2 /\ R (snd e1) (snd e2)) g1 g2.
+Proof.
+  induction g1 as [|[k1 v1] t1 IH]; intros g2 S1 S2 HK HL.
+  - destruct g2 as [|[k2 v2] t2]; [constructor|]. exfalso. apply (HK k2). left; reflexivity.
+  - destruct g2 as [|[k2 v2] t2]. { exfalso. apply (HK k1). left; reflexivity. }
+    pose proof (gsorted_head_notin _ _ _ S1) as N1. pose proof (gsorted_head_notin _ _ _ S2) as N2.
+    cbn [gkeys map fst] in *. inversion S1 as [|? ? S1t A1]; inversion S2 as [|? ? S2t A2]; subst.
+    rewrite Forall_forall in A1, A2.
+    assert (k1 = k2) as ->.
+    { destruct (proj1 (HK k1) (or_introl eq_refl)) as [E|E]; [symmetry; exact E|].
+      destruct (proj2 (HK k2) (or_introl eq_refl)) as [E'|E']; [exact E'|].
+      exfalso. apply (klt_irrefl k1). eapply klt_trans; [apply A1; exact E' | apply A2; exact E]. }
+    constructor.
+    + split; [reflexivity|]. cbn [snd]. specialize (HL k2 (or_introl eq_refl)). cbn [glook] in HL.
+      rewrite keqb_refl, (glook_notin t1 k2 N1), (glook_notin t2 k2 N2), !app_nil_r in HL. exact HL.
+    + apply IH; auto.
+      * intro k. split; intro X.
+        -- destruct (proj1 (HK k) (or_intror X)) as [E|E]; [subst; contradiction|exact E].
+        -- destruct (proj2 (HK k) (or_intror X)) as [E|E]; [subst; contradiction|exact E].
+      * intros k X. specialize (HL k (or_intror X)). cbn [glook] in HL.
+        assert (keqb k2 k = false) as Ek by (apply keqb_neq; intros ->; contradiction).
+        rewrite Ek in HL. exact HL.
+Qed.
+
+Theorem gcanon_unique src g1 g2 : GCanon src g1 -> GCanon src g2 -> g1 = g2.
+Proof.
+  intros (S1 & K1 & L1) (S2 & K2 & L2).
+  assert (F : Forall2 (fun e1 e2 : grp => fst e1 = fst e2 /\ snd e1 = snd e2) g1 g2).
+  { apply gsorted_rel; auto.
+    - intro k. rewrite K1, K2. reflexivity.
+    - intros k _. rewrite L1, L2. reflexivity. }
+  clear -F. induction F as [|[a b] [c d] l1 l2 (E1 & E2) _ IH]; [reflexivity|]. cbn in *. subst. reflexivity.
+Qed.
+
+(** the source only matters through its key set and its values per key *)
+Lemma gcanon_src src src' g :
+  (forall k, In k (map fst src) <-> In k (map fst src')) -> (forall k, vals src k = vals src' k) ->
+  GCanon src g -> GCanon src' g.
+Proof.
+  intros HK HV (S1 & K1 & L1). split; [exact S1|]. split.
+  - intro k. rewrite K1. apply HK.
+  - intro k. rewrite L1. apply HV.
+Qed.
+
+Lemma ssorted_klt_app (a b : list key) : StronglySorted klt a -> StronglySorted klt b ->
+  (forall x y, In x a -> In y b -> klt x y) -> StronglySorted klt (a ++ b).
+Proof.
+  induction 1 as [|x a HS IH HF]; intros Sb H; [exact Sb|]. cbn [app]. constructor.
+  - apply IH; auto. intros; apply H; [right|]; assumption.
+  - apply Forall_app. split; [exact HF|]. apply Forall_forall. intros y Hy. apply H; [left; reflexivity|exact Hy].
+Qed.
+
+(** grouping is compositional over a split of the keys into a lower and an upper part *)
+Lemma group_app_sorted (l1 l2 : list recd) :
+  (forall k1 k2, In k1 (map fst l1) -> In k2 (map fst l2) -> klt k1 k2) ->
+  group (l1 ++ l2) = group l1 ++ group l2.
+Proof.
+  intros Hlt. apply (gcanon_unique (l1 ++ l2)); [apply group_canon|].
+  destruct (group_canon l1) as (S1 & K1 & L1). destruct (group_canon l2) as (S2 & K2 & L2).
+  split; [|split].
+  - unfold GSorted, gkeys in *. rewrite map_app. apply ssorted_klt_app; auto.
+    intros x y Hx Hy. apply Hlt; [apply K1; exact Hx|apply K2; exact Hy].
+  - intro k. unfold gkeys in *. rewrite !map_app, !in_app_iff, K1, K2. reflexivity.
+  - intro k. rewrite glook_app, vals_app, L1, L2. reflexivity.
+Qed.
+
+Lemma groupby_agg_app agg (l1 l2 : list recd) :
+  (forall k1 k2, In k1 (map fst l1) -> In k2 (map fst l2) -> klt k1 k2) ->
+  groupby_agg agg (l1 ++ l2) = groupby_agg agg l1 ++ groupby_agg agg l2.
+Proof. intros H. unfold groupby_agg. now rewrite (group_app_sorted _ _ H), map_app. Qed.
+
+Lemma groupby_agg_src agg (l l' : list recd) :
+  (forall k, In k (map fst l) <-> In k (map fst l')) -> (forall k, vals l k = vals l' k) ->
+  groupby_agg agg l = groupby_agg agg l'.
+Proof.
+  intros HK HV. unfold groupby_agg. f_equal. apply (gcanon_unique l'); [|apply group_canon].
+  eapply gcanon_src; [exact HK|exact HV|apply group_canon].
+Qed.
+
+Lemma groupby_agg_keys agg (l : list recd) k : In k (map fst (groupby_agg agg l)) <-> In k (map fst l).
+Proof.
+  unfold groupby_agg. rewrite map_map. cbn [fst]. destruct (group_canon l) as (_ & K & _). apply K.
+Qed.
+Lemma groupby_agg_sorted agg (l : list recd) : StronglySorted klt (map fst (groupby_agg agg l)).
+Proof. unfold groupby_agg. rewrite map_map. cbn [fst]. destruct (group_canon l) as (S1 & _ & _). exact S1. Qed.
+(** the stored value of a key is the aggregate of that key's values over the source, in order *)
+Lemma groupby_agg_value agg (l : list recd) k v :
+  In (k, v) (groupby_agg agg l) -> v = agg (vals l k).
+Proof.
+  unfold groupby_agg. rewrite in_map_iff. intros ([k' vs] & E & Hin). cbn [fst snd] in E. inversion E; subst.
+  destruct (group_canon l) as (S1 & _ & L1). rewrite <- L1. f_equal.
+  clear L1. revert S1 Hin. generalize (group l). induction l0 as [|[k0 vs0] t IH]; intros S1 Hin; [contradiction|].
+  pose proof (gsorted_head_notin _ _ _ S1) as N. cbn [glook]. destruct Hin as [E0|Hin].
+  - inversion E0; subst. rewrite keqb_refl, (glook_notin t k N), app_nil_r. reflexivity.
+  - assert (keqb k0 k = false) as Ek.
+    { apply keqb_neq. intros ->. apply N. apply in_map_iff. exists (k, vs). auto. }
+    rewrite Ek. cbn [app]. apply IH; [|exact Hin]. inversion S1; assumption.
+Qed.
+End GroupBy.
+
+(* ================================================================== C. CoolerMerger *)
+Section Merger.
+Context {V : Type}.
+Notation recd := (key * V)%type.
+
+Definition rowof (p : recd) : Z := fst (fst p).
+Definition RowSorted (px : list recd) : Prop := StronglySorted Z.le (map rowof px).
+(** number of records in rows < b : the value of bin1_offset[b] *)
+Definition cnt (px : list recd) (b : Z) : Z := zlen (filter (fun p => rowof p <? b) px).
+Definition inrowsk (a b : Z) (k : key) : bool := (a <=? fst k) && (fst k <? b).
+Definition inrows (a b : Z) (p : recd) : bool := inrowsk a b (fst p).
+
+(** what the merger needs of an input cooler over n bins: rows non-decreasing and in range, and
+    bin1_offset is the index of the pixel table (C02) *)
+Record ValidIn (n : nat) (c : mcool V) : Prop := {
+  vi_off : mc_off c = index_of n (mc_px c);
+  vi_sorted : RowSorted (mc_px c);
+  vi_range : Forall (fun p => 0 <= rowof p < Z.of_nat n) (mc_px c) }.
+
+Definition allpx (inputs : list (mcool V)) : list recd := concat (map (@mc_px V) inputs).
+
+Lemma cnt_cons p t x : cnt (p :: t) x = (if rowof p <? x then 1 else 0) + cnt t x.
+Proof. unfold cnt, zlen. cbn [filter]. destruct (rowof p <? x); cbn [length]; lia. Qed.
+Lemma cnt_nonneg px x : 0 <= cnt px x. Proof. unfold cnt, zlen. lia. Qed.
+Lemma cnt_zero px x : Forall (fun q => x <= rowof q) px -> cnt px x = 0.
+Proof.
+  intros H. unfold cnt. rewrite filter_none; [reflexivity|].
+  rewrite Forall_forall in H. intros q Hq. specialize (H q Hq). lia.
+Qed.
+Lemma cnt_mono px a b : a <= b -> cnt px a <= cnt px b.
+Proof.
+  intros H. induction px as [|p t IH]; [reflexivity|]. rewrite !cnt_cons.
+  destruct (rowof p <? a) eqn:E1, (rowof p <? b) eqn:E2; lia.
+Qed.
+Lemma cnt_all px x : Forall (fun q => rowof q < x) px -> cnt px x = zlen px.
+Proof.
+  intros H. unfold cnt. rewrite filter_all; [reflexivity|].
+  rewrite Forall_forall in H. intros q Hq. specialize (H q Hq). lia.
+Qed.
+Lemma cnt_le_len px x : cnt px x <= zlen px.
+Proof.
+  induction px as [|p t IH]; [reflexivity|]. rewrite cnt_cons. unfold zlen in *. cbn [length].
+  destruct (rowof p <? x); lia.
+Qed.
+Lemma cnt_all_inv px x : cnt px x = zlen px -> Forall (fun q => rowof q < x) px.
+Proof.
+  induction px as [|p t IH]; intros H; [constructor|]. rewrite cnt_cons in H. unfold zlen in *. cbn [length] in H.
+  pose proof (cnt_nonneg t x). pose proof (cnt_le_len t x) as Hle. unfold zlen in Hle.
+  destruct (rowof p <? x) eqn:E; [|lia]. constructor; [lia|]. apply IH. unfold zlen. lia.
+Qed.
+
+Lemma nth_index_of n (px : list recd) b : (b <= n)%nat -> nth b (index_of n px) 0 = cnt px (Z.of_nat b).
+Proof.
+  intros Hb. unfold index_of. apply nth_error_nth.
+  erewrite map_nth_error; [|apply nth_error_zrange; lia]. reflexivity.
+Qed.
+Lemma index_of_length n (px : list recd) : length (index_of n px) = S n.
+Proof. unfold index_of. now rewrite map_length, zrange_length. Qed.
+
+Lemma slice_S {A} (p : A) t x y : 0 <= x -> slice (p :: t) (1 + x) (1 + y) = slice t x y.
+Proof.
+  intros Hx. unfold slice. replace (1 + y - (1 + x)) with (y - x) by lia.
+  replace (Z.to_nat (1 + x)) with (S (Z.to_nat x)) by lia. reflexivity.
+Qed.
+Lemma slice_0_S {A} (p : A) t y : 0 <= y -> slice (p :: t) 0 (1 + y) = p :: slice t 0 y.
+Proof.
+  intros Hy. unfold slice. replace (Z.to_nat (1 + y - 0)) with (S (Z.to_nat y)) by lia.
+  replace (y - 0) with y by lia. reflexivity.
+Qed.
+
+(** the slice between two index entries is exactly the records of the rows in between *)
+Lemma slice_rows px a b : RowSorted px -> a <= b ->
+  slice px (cnt px a) (cnt px b) = filter (inrows a b) px.
+Proof.
+  unfold RowSorted. intros HS Hab. induction px as [|p t IH]; [reflexivity|].
+  cbn [map] in HS. inversion HS as [|? ? HSt HF]; subst. specialize (IH HSt).
+  assert (HF' : Forall (fun q => rowof p <= rowof q) t) by (rewrite Forall_map in HF; exact HF).
+  rewrite !cnt_cons. cbn [filter]. unfold inrows at 1, inrowsk. fold (rowof p).
+  pose proof (cnt_nonneg t a). pose proof (cnt_nonneg t b).
+  destruct (rowof p <? a) eqn:Ea.
+  - assert (Eb : rowof p <? b = true) by lia. rewrite Eb.
+    replace (a <=? rowof p) with false by lia. cbn [andb]. rewrite slice_S by lia. exact IH.
+  - assert (Ha0 : cnt t a = 0).
+    { apply cnt_zero. eapply Forall_impl; [|exact HF']. cbn. intros; lia. }
+    rewrite Ha0 in *. replace (a <=? rowof p) with true by lia. cbn [andb Z.add].
+    destruct (rowof p <? b) eqn:Eb.
+    + rewrite slice_0_S by lia. f_equal. exact IH.
+    + assert (Hb0 : cnt t b = 0).
+      { apply cnt_zero. eapply Forall_impl; [|exact HF']. cbn. intros; lia. }
+      rewrite Hb0 in *. rewrite <- IH. reflexivity.
+Qed.
+
+Lemma epoch_frames_eq (inputs : list (mcool V)) (f g : mcool V -> Z) :
+  epoch_frames inputs (map f inputs) (map g inputs)
+  = concat (map (fun c => slice (mc_px c) (f c) (g c)) inputs).
+Proof.
+  unfold epoch_frames. induction inputs as [|c t IH]; [reflexivity|].
+  cbn [map combine concat fst snd]. f_equal. exact IH.
+Qed.
+
+Lemma concat_map_filter (P : recd -> bool) (inputs : list (mcool V)) :
+  concat (map (fun c => filter P (mc_px c)) inputs) = filter P (allpx inputs).
+Proof.
+  unfold allpx. induction inputs as [|c t IH]; [reflexivity|]. cbn [map concat]. now rewrite filter_app, IH.
+Qed.
+
+Lemma frames_rows n (inputs : list (mcool V)) (a b : nat) :
+  Forall (ValidIn n) inputs -> (a <= b <= n)%nat ->
+  epoch_frames inputs (map (fun c => nth a (mc_off c) 0) inputs) (map (fun c => nth b (mc_off c) 0) inputs)
+  = filter (inrows (Z.of_nat a) (Z.of_nat b)) (allpx inputs).
+Proof.
+  intros HV Hab. rewrite epoch_frames_eq, <- concat_map_filter. f_equal.
+  apply map_ext_in. intros c Hc. rewrite Forall_forall in HV. destruct (HV c Hc) as [Ho Hs Hr].
+  rewrite Ho, !nth_index_of by lia. apply slice_rows; [exact Hs|lia].
+Qed.
+
+Lemma groupby_agg_nil agg : @groupby_agg V agg [] = []. Proof. reflexivity. Qed.
+
+Lemma ssorted_le_last (b : nat) rest : StronglySorted le (b :: rest) -> (b <= last rest b)%nat.
+Proof.
+  intros H. inversion H as [|? ? _ HF]; subst. destruct rest as [|r rest']; [cbn; lia|].
+  rewrite Forall_forall in HF. apply HF. destruct (@exists_last _ (r :: rest') ltac:(discriminate)) as (q & z & E).
+  rewrite E, last_last. apply in_or_app. right. left. reflexivity.
+Qed.
+
+Lemma last_cons_default {A} (rest : list A) : forall a b, last (b :: rest) a = last rest b.
+Proof.
+  induction rest as [|r rest IH]; intros a b; [reflexivity|].
+  change (last (b :: r :: rest) a) with (last (r :: rest) a). rewrite (IH a r), (IH b r). reflexivity.
+Qed.
+
+(** the epochs over a non-decreasing list of breakpoints aggregate exactly the rows they span *)
+Lemma merger_epochs_rows agg n (inputs : list (mcool V)) : Forall (ValidIn n) inputs ->
+  forall part a, StronglySorted le (a :: part) -> Forall (fun h => (h <= n)%nat) (a :: part) ->
+  concat (merger_epochs agg inputs (map (fun c => nth a (mc_off c) 0) inputs) part)
+  = groupby_agg agg (filter (inrows (Z.of_nat a) (Z.of_nat (last part a))) (allpx inputs)).
+Proof.
+  intros HV. induction part as [|b rest IH]; intros a HS HB.
+  - cbn [merger_epochs concat last]. rewrite filter_none; [reflexivity|].
+    intros p _. unfold inrows, inrowsk. lia.
+  - cbn [merger_epochs].
+    inversion HS as [|? ? HS' HFa]; subst. inversion HB as [|? ? Ha HB']; subst.
+    assert (Hab : (a <= b)%nat) by (inversion HFa; assumption).
+    assert (Hbn : (b <= n)%nat) by (inversion HB'; assumption).
+    rewrite (frames_rows n inputs a b HV ltac:(lia)).
+    set (F := filter (inrows (Z.of_nat a) (Z.of_nat b)) (allpx inputs)).
+    pose proof (ssorted_le_last b rest HS') as Hbl.
+    assert (E : forall X, concat (match F with
+                                  | [] => X
+                                  | p :: l => groupby_agg agg (p :: l) :: X
+                                  end) = groupby_agg agg F ++ concat X).
+    { intros X. destruct F; reflexivity. }
+    rewrite E, (IH b HS' HB'). clear E.
+    assert (Hl : last (b :: rest) a = last rest b) by apply last_cons_default.
+    rewrite Hl. set (l := last rest b) in *.
+    rewrite <- groupby_agg_app.
+    + apply groupby_agg_src.
+      * intro k. unfold F, inrows. rewrite map_app, in_app_iff, !keys_filter. unfold inrowsk.
+        split; [intros [(H1 & H2)|(H1 & H2)]; (split; [exact H1|lia])|].
+        intros (H1 & H2). destruct (fst k <? Z.of_nat b) eqn:Eb; [left|right]; (split; [exact H1|lia]).
+      * intro k. unfold F, inrows. rewrite vals_app, !vals_filter. unfold inrowsk.
+        destruct ((Z.of_nat a <=? fst k) && (fst k <? Z.of_nat b)) eqn:E1;
+        destruct ((Z.of_nat b <=? fst k) && (fst k <? Z.of_nat l)) eqn:E2;
+        destruct ((Z.of_nat a <=? fst k) && (fst k <? Z.of_nat l)) eqn:E3; try lia;
+        rewrite ?app_nil_r; reflexivity.
+    + intros k1 k2 H1 H2. unfold F, inrows in H1, H2. rewrite keys_filter in H1, H2. unfold inrowsk in *.
+      left. lia.
+Qed.
+
+Lemma valid_index_facts n (c : mcool V) : ValidIn n c ->
+  length (mc_off c) = S n /\ MonoN (mc_off c) /\ nth 0 (mc_off c) 0 = 0.
+Proof.
+  intros [Ho Hs Hr]. rewrite Ho. split; [apply index_of_length|]. split.
+  - intros i j Hij. rewrite index_of_length in Hij. rewrite !nth_index_of by lia. apply cnt_mono. lia.
+  - rewrite nth_index_of by lia. apply cnt_zero. eapply Forall_impl; [|exact Hr]. cbn. intros; lia.
+Qed.
+
+(** C07 theorem 2 (any value type, any aggregation function): for every non-empty family of valid
+    inputs over n >= 1 bins and every buffer size, the merger terminates without error, never yields an
+    empty chunk, and the concatenation of its chunks is the sorted group-by aggregate of all input
+    records (values of a pixel in input order) *)
+Theorem merger_exact agg n (inputs : list (mcool V)) buf :
+  inputs <> [] -> (1 <= n)%nat -> Forall (ValidIn n) inputs -> 0 <= buf ->
+  exists eps, cooler_merger agg inputs buf = Ok eps /\
+              concat eps = groupby_agg agg (allpx inputs) /\ Forall (fun e => e <> []) eps.
+Proof.
+  intros Hne Hn HV Hbuf. unfold cooler_merger, merge_breakpoints_auto.
+  set (idxs := map (@mc_off V) inputs).
+  assert (HF : Forall (fun a => length a = S n /\ MonoN a /\ nth 0 a 0 = 0) idxs).
+  { subst idxs. rewrite Forall_map. eapply Forall_impl; [|exact HV]. apply valid_index_facts. }
+  assert (Hne' : idxs <> []) by (subst idxs; destruct inputs; [contradiction|discriminate]).
+  assert (FL : Forall (fun a => length a = S n) idxs) by (eapply Forall_impl; [|exact HF]; cbn; tauto).
+  destruct (combined_index_facts idxs (S n) FL Hne') as (CL & _). rewrite CL.
+  destruct (breakpoints_partition idxs (S n) buf Hne' ltac:(lia) HF Hbuf) as (p & Ep & P0 & PS & PF & PE).
+  rewrite Ep. cbn [bind]. eexists. split; [reflexivity|].
+  destruct p as [|p0 p']; [cbn in P0; lia|]. cbn [hd] in P0. subst p0. cbn [tl].
+  assert (E0 : map (fun _ : mcool V => 0) inputs = map (fun c => nth 0 (mc_off c) 0) inputs).
+  { apply map_ext_in. intros c Hc. rewrite Forall_forall in HV. destruct (valid_index_facts n c (HV c Hc)) as (_ & _ & H0). now rewrite H0. }
+  rewrite E0. split.
+  - rewrite (merger_epochs_rows agg n inputs HV p' O).
+    + f_equal. apply filter_all. intros q Hq. unfold allpx in Hq. apply in_concat in Hq.
+      destruct Hq as (l & Hl & Hq). apply in_map_iff in Hl. destruct Hl as (c & <- & Hc).
+      rewrite Forall_forall in HV. destruct (HV c Hc) as [Ho Hs Hr].
+      assert (Hlast : last (O :: p') O = last p' O) by (destruct p'; reflexivity).
+      rewrite Forall_forall in PE. specialize (PE (mc_off c) ltac:(subst idxs; apply in_map; exact Hc) (last (O :: p') O)).
+      assert (Hlt : (last (O :: p') O < S n)%nat).
+      { rewrite Forall_forall in PF. apply PF. destruct (@exists_last _ (O :: p') ltac:(discriminate)) as (z & w & E).
+        rewrite E, last_last. apply in_or_app. right. left. reflexivity. }
+      specialize (PE ltac:(lia)). rewrite Ho, !nth_index_of in PE by lia.
+      replace (S n - 1)%nat with n in PE by lia.
+      rewrite (cnt_all (mc_px c) (Z.of_nat n)) in PE by (eapply Forall_impl; [|exact Hr]; cbn; intros; lia).
+      apply cnt_all_inv in PE. rewrite Forall_forall in PE, Hr. specialize (PE q Hq). specialize (Hr q Hq).
+      rewrite Hlast in PE. unfold inrows, inrowsk. fold (rowof q). lia.
+    + clear -PS. induction PS as [|x l HS IH HF]; constructor; [exact IH|].
+      eapply Forall_impl; [|exact HF]. cbn. intros; lia.
+    + eapply Forall_impl; [|exact PF]. cbn. intros; lia.
+  - clear. generalize (map (fun c : mcool V => nth 0 (mc_off c) 0) inputs). induction p' as [|b rest IH]; intros st; cbn [merger_epochs]; [constructor|].
+    destruct (epoch_frames inputs st _) as [|r fr] eqn:E; [apply IH|]. constructor; [|apply IH].
+    unfold groupby_agg. destruct (group_canon (r :: fr)) as (_ & K & _).
+    destruct (group (r :: fr)) as [|g gs]; [|discriminate]. exfalso. apply (K (fst r)). left. reflexivity.
+Qed.
+End Merger.
+
+(* ================================================================== D. counts: V = Z, aggregation = sum *)
+
+Definition total (l : list pixel) : Z := sumZ (map snd l).
+
+Lemma sumZ_cons x l : sumZ (x :: l) = x + sumZ l. Proof. reflexivity. Qed.
+Lemma sumZ_app a b : sumZ (a ++ b) = sumZ a + sumZ b.
+Proof. induction a as [|x a IH]; cbn [app]; [change (sumZ []) with 0; lia|]. rewrite !sumZ_cons, IH. lia. Qed.
+Lemma look_vals (l : list (key * Z)) k : look l k = sumZ (vals l k).
+Proof.
+  induction l as [|[k' v] t IH]; [reflexivity|]. rewrite vals_cons. cbn [look fst snd]. rewrite IH.
+  destruct (kcmp k k') eqn:E.
+  - apply kcmp_eq in E. subst k'. rewrite keqb_refl. cbn [app]. rewrite sumZ_cons. lia.
+  - assert (keqb k' k = false) as ->; [|cbn [app]; lia]. apply keqb_neq. intros ->. rewrite kcmp_refl in E. discriminate.
+  - assert (keqb k' k = false) as ->; [|cbn [app]; lia]. apply keqb_neq. intros ->. rewrite kcmp_refl in E. discriminate.
+Qed.
+
+Lemma look_in_sorted (out : list pixel) k v : SSorted out -> In (k, v) out -> look out k = v.
+Proof.
+  unfold SSorted. induction out as [|[k0 v0] t IH]; intros HS Hin; [contradiction|].
+  cbn [keys map fst] in HS. inversion HS as [|? ? HSt HF]; subst. cbn [look]. destruct Hin as [E|Hin].
+  - inversion E; subst. rewrite kcmp_refl, look_notin; [lia|].
+    intro X. rewrite Forall_forall in HF. apply (klt_irrefl k). apply HF. exact X.
+  - assert (Hk : In k (keys t)) by (apply in_map_iff; exists (k, v); auto).
+    rewrite Forall_forall in HF. specialize (HF k Hk).
+    destruct (kcmp k k0) eqn:E.
+    + apply kcmp_eq in E. subst. exfalso. now apply (klt_irrefl k0).
+    + rewrite (IH HSt Hin). lia.
+    + rewrite (IH HSt Hin). lia.
+Qed.
+
+Lemma key_eq_dec (a b : key) : {a = b} + {a <> b}.
+Proof. decide equality; apply Z.eq_dec. Qed.
+
+(** the pandas group-by sum is the canonical aggregate of Model/Pixels.v *)
+Theorem groupby_sum_aggregate (l : list pixel) : groupby_agg sumZ l = aggregate l.
+Proof.
+  apply (canon_unique l); [|apply aggregate_canon].
+  pose proof (groupby_agg_sorted sumZ l) as HS.
+  split; [exact HS|]. split.
+  - intro k. apply groupby_agg_keys.
+  - intro k. rewrite (look_vals l k).
+    destruct (in_dec key_eq_dec k (keys (groupby_agg sumZ l))) as [Hin|Hnin].
+    + unfold keys in Hin. apply in_map_iff in Hin. destruct Hin as ([k' v] & E & Hin). cbn [fst] in E. subst k'.
+      rewrite (look_in_sorted _ k v HS Hin). apply groupby_agg_value in Hin. exact Hin.
+    + rewrite look_notin by exact Hnin. rewrite vals_notin; [reflexivity|].
+      intro X. apply Hnin. apply groupby_agg_keys. exact X.
+Qed.
+
+Lemma total_ins k v l : total (ins k v l) = v + total l.
+Proof.
+  unfold total. induction l as [|[k0 v0] t IH]; cbn [ins]; [cbn [map snd]; rewrite sumZ_cons; lia|].
+  destruct (kcmp k k0); cbn [map snd] in *; rewrite ?sumZ_cons in *; lia.
+Qed.
+Lemma total_aggregate l : total (aggregate l) = total l.
+Proof.
+  unfold aggregate. assert (H : forall acc, total (fold_left (fun acc p => ins (fst p) (snd p) acc) l acc) = total acc + total l).
+  { induction l as [|[k v] t IH]; intros acc; cbn [fold_left]; [unfold total; cbn [map]; change (sumZ []) with 0; lia|].
+    rewrite IH, total_ins. unfold total. cbn [fst snd map]. rewrite sumZ_cons. lia. }
+  rewrite H. unfold total. cbn [map]. change (sumZ []) with 0. lia.
+Qed.
+Lemma total_app l1 l2 : total (l1 ++ l2) = total l1 + total l2.
+Proof. unfold total. now rewrite map_app, sumZ_app. Qed.
+Lemma total_allpx (inputs : list (mcool Z)) : total (allpx inputs) = sumZ (map (fun c => total (mc_px c)) inputs).
+Proof.
+  unfold allpx. induction inputs as [|c t IH]; [reflexivity|]. cbn [map concat].
+  rewrite total_app, IH, sumZ_cons. reflexivity.
+Qed.
+
+Definition merged_px {V} (agg : list V -> V) (inputs : list (mcool V)) (buf : Z) : res (list (key * V)) :=
+  match cooler_merger agg inputs buf with Ok eps => Ok (concat eps) | Err e => Err e end.
+
+(** C07 theorem 2, count column: the chunks written by the merger, concatenated, are the canonical
+    aggregate (strictly sorted, same pixel set, per-pixel sum) of all input pixels, and the recorded
+    total is the sum of the input totals *)
+Theorem merger_canon n (inputs : list (mcool Z)) buf :
+  inputs <> [] -> (1 <= n)%nat -> Forall (ValidIn n) inputs -> 0 <= buf ->
+  exists out, merged_px sumZ inputs buf = Ok out /\
+    Canon (allpx inputs) out /\ out = aggregate (allpx inputs) /\
+    total out = sumZ (map (fun c => total (mc_px c)) inputs).
+Proof.
+  intros Hne Hn HV Hb. destruct (merger_exact sumZ n inputs buf Hne Hn HV Hb) as (eps & E & Ec & _).
+  unfold merged_px. rewrite E. eexists. split; [reflexivity|]. rewrite Ec, groupby_sum_aggregate.
+  split; [apply aggregate_canon|]. split; [reflexivity|]. now rewrite total_aggregate, total_allpx.
+Qed.
+
+(** generic form of the same statement for any value type and aggregation function *)
+Theorem merger_groupby {V} (agg : list V -> V) n (inputs : list (mcool V)) buf :
+  inputs <> [] -> (1 <= n)%nat -> Forall (ValidIn n) inputs -> 0 <= buf ->
+  merged_px agg inputs buf = Ok (groupby_agg agg (allpx inputs)).
+Proof.
+  intros Hne Hn HV Hb. destruct (merger_exact agg n inputs buf Hne Hn HV Hb) as (eps & E & Ec & _).
+  unfold merged_px. now rewrite E, Ec.
+Qed.
+
+(** every stored pixel carries the aggregate of exactly that pixel's values over the inputs *)
+Corollary merger_pixelwise {V} (agg : list V -> V) n (inputs : list (mcool V)) buf :
+  inputs <> [] -> (1 <= n)%nat -> Forall (ValidIn n) inputs -> 0 <= buf ->
+  exists out, merged_px agg inputs buf = Ok out /\
+    StronglySorted klt (map fst out) /\
+    (forall k, In k (map fst out) <-> In k (map fst (allpx inputs))) /\
+    (forall k v, In (k, v) out -> v = agg (vals (allpx inputs) k)).
+Proof.
+  intros Hne Hn HV Hb. exists (groupby_agg agg (allpx inputs)). split; [now apply (merger_groupby agg n)|].
+  split; [apply groupby_agg_sorted|]. split; [intro k; apply groupby_agg_keys|]. intros k v. apply groupby_agg_value.
+Qed.
+
+(** buffer-size independence *)
+Corollary merge_buffer_independent {V} (agg : list V -> V) n (inputs : list (mcool V)) buf buf' :
+  inputs <> [] -> (1 <= n)%nat -> Forall (ValidIn n) inputs -> 0 <= buf -> 0 <= buf' ->
+  merged_px agg inputs buf = merged_px agg inputs buf'.
+Proof. intros. rewrite !(merger_groupby agg n); auto. Qed.
+
+Lemma permutation_concat {A} (l l' : list (list A)) : Permutation l l' -> Permutation (concat l) (concat l').
+Proof.
+  induction 1 as [|x l l' _ IH|x y l|l l' l'' _ IH1 _ IH2]; cbn [concat].
+  - constructor.
+  - now apply Permutation_app_head.
+  - rewrite !app_assoc. apply Permutation_app_tail. apply Permutation_app_comm.
+  - eapply Permutation_trans; eauto.
+Qed.
+
+(** input-order independence (sum) *)
+Corollary merge_order_independent n (inputs inputs' : list (mcool Z)) buf buf' :
+  Permutation inputs inputs' ->
+  inputs <> [] -> (1 <= n)%nat -> Forall (ValidIn n) inputs -> 0 <= buf -> 0 <= buf' ->
+  merged_px sumZ inputs buf = merged_px sumZ inputs' buf'.
+Proof.
+  intros HP Hne Hn HV Hb Hb'.
+  assert (Hne' : inputs' <> []) by (intros ->; apply Permutation_sym, Permutation_nil in HP; contradiction).
+  assert (HV' : Forall (ValidIn n) inputs') by (eapply Permutation_Forall; eauto).
+  rewrite !(merger_groupby sumZ n), !groupby_sum_aggregate by auto. f_equal.
+  apply aggregate_perm. unfold allpx. apply permutation_concat. now apply Permutation_map.
+Qed.
+
+Lemma klt_row_le (a b : key) : klt a b -> fst a <= fst b. Proof. unfold klt. lia. Qed.
+Lemma ssorted_rowsorted {V} (px : list (key * V)) : StronglySorted klt (map fst px) -> RowSorted px.
+Proof.
+  unfold RowSorted. induction px as [|p t IH]; intros H; cbn [map]; [constructor|].
+  cbn [map] in H. inversion H as [|? ? Ht HF]; subst. constructor; [apply IH; exact Ht|].
+  rewrite Forall_map in *. eapply Forall_impl; [|exact HF]. intros q Hq. apply klt_row_le in Hq. exact Hq.
+Qed.
+(** a written table that is strictly sorted and in range, together with its index, is a valid input *)
+Lemma valid_mk_cool {V} n (px : list (key * V)) :
+  StronglySorted klt (map fst px) -> Forall (fun p => 0 <= rowof p < Z.of_nat n) px -> ValidIn n (mk_cool n px).
+Proof. intros HS HR. constructor; [reflexivity|apply ssorted_rowsorted; exact HS|exact HR]. Qed.
+
+Lemma allpx_range {V} n (inputs : list (mcool V)) : Forall (ValidIn n) inputs ->
+  Forall (fun p => 0 <= rowof p < Z.of_nat n) (allpx inputs).
+Proof.
+  intros HV. unfold allpx. apply Forall_concat. rewrite Forall_map. eapply Forall_impl; [|exact HV].
+  intros c [_ _ Hr]. exact Hr.
+Qed.
+Lemma groupby_range {V} (agg : list V -> V) n (l : list (key * V)) :
+  Forall (fun p => 0 <= rowof p < Z.of_nat n) l -> Forall (fun p => 0 <= rowof p < Z.of_nat n) (groupby_agg agg l).
+Proof.
+  intros H. rewrite Forall_forall in *. intros [k v] Hin.
+  assert (Hk : In k (map fst l)). { apply (groupby_agg_keys agg l k). apply in_map_iff. exists (k, v). auto. }
+  apply in_map_iff in Hk. destruct Hk as (q & E & Hq). specialize (H q Hq). unfold rowof in *. cbn [fst]. rewrite <- E. exact H.
+Qed.
+Lemma valid_merged {V} (agg : list V -> V) n (inputs : list (mcool V)) :
+  Forall (ValidIn n) inputs -> ValidIn n (mk_cool n (groupby_agg agg (allpx inputs))).
+Proof.
+  intros HV. apply valid_mk_cool; [apply groupby_agg_sorted|]. apply groupby_range. now apply allpx_range.
+Qed.
+
+Lemma allpx_app {V} (a b : list (mcool V)) : allpx (a ++ b) = allpx a ++ allpx b.
+Proof. unfold allpx. now rewrite map_app, concat_app. Qed.
+
+(** associativity (sum): merging the stored result of a merge with further inputs equals merging
+    everything at once; in particular merge [merge [a;b]; c] = merge [a;b;c] *)
+Theorem merge_assoc n (xs ys : list (mcool Z)) b1 b2 b3 :
+  xs <> [] -> (1 <= n)%nat -> Forall (ValidIn n) xs -> Forall (ValidIn n) ys ->
+  0 <= b1 -> 0 <= b2 -> 0 <= b3 ->
+  exists m, merged_px sumZ xs b1 = Ok m /\
+    merged_px sumZ (mk_cool n m :: ys) b2 = merged_px sumZ (xs ++ ys) b3.
+Proof.
+  intros Hne Hn HX HY H1 H2 H3. exists (groupby_agg sumZ (allpx xs)).
+  split; [now apply (merger_groupby sumZ n)|].
+  rewrite !(merger_groupby sumZ n); auto.
+  - f_equal. change (mk_cool n (groupby_agg sumZ (allpx xs)) :: ys) with ([mk_cool n (groupby_agg sumZ (allpx xs))] ++ ys).
+    rewrite !allpx_app. unfold allpx at 1. cbn [map concat mc_px mk_cool]. rewrite app_nil_r.
+    rewrite !groupby_sum_aggregate. apply aggregate_app_agg.
+  - destruct xs; [contradiction|discriminate].
+  - apply Forall_app. split; assumption.
+  - discriminate.
+  - constructor; [now apply valid_merged|exact HY].
 Qed.
